@@ -807,6 +807,30 @@ impl<'tcx> Interp<'tcx> {
                     })
                     .collect(),
             ),
+            ty::Adt(def, _) if def.is_enum() && def.variants().iter().all(|v| v.fields.is_empty()) => {
+                use rustc_abi::{TagEncoding, Variants};
+                match &layout.variants {
+                    Variants::Single { index } => Val::Enum { variant: index.as_u32(), fields: Vec::new() },
+                    Variants::Multiple { tag, tag_encoding: TagEncoding::Direct, tag_field, .. } => {
+                        let toff = off + layout.fields.offset(tag_field.as_usize()).bytes() as usize;
+                        let tsz = tag.size(&self.tcx).bytes() as usize;
+                        if toff + tsz > bytes.len() {
+                            return Val::Top;
+                        }
+                        let mut v = 0u128;
+                        for i in 0..tsz {
+                            v |= (bytes[toff + i] as u128) << (8 * i);
+                        }
+                        for (vi, d) in def.discriminants(self.tcx) {
+                            if d.val & mask(tsz * 8) == v {
+                                return Val::Enum { variant: vi.as_u32(), fields: Vec::new() };
+                            }
+                        }
+                        Val::Top
+                    }
+                    _ => Val::Top,
+                }
+            }
             ty::Array(el, len) => match len.try_to_target_usize(self.tcx) {
                 Some(n) if n <= 256 => {
                     let esz = self.tcx.layout_of(self.env.as_query_input(*el)).map(|l| l.size.bytes() as usize).unwrap_or(0);
@@ -836,6 +860,21 @@ impl<'tcx> Interp<'tcx> {
             }
             ConstValue::ZeroSized => Val::Unit,
             ConstValue::Slice { alloc_id, meta } => {
+                // a constant slice of sized elements (`&[(u8, E)]` lookup tables): decode the elements
+                if let ty::Ref(_, pointee, _) = ty.kind() {
+                    if let ty::Slice(el) = pointee.kind() {
+                        if let (GlobalAlloc::Memory(a), Ok(l)) = (self.tcx.global_alloc(alloc_id), self.tcx.layout_of(self.env.as_query_input(*el))) {
+                            let al = a.inner();
+                            let bytes = al.inspect_with_uninit_and_ptr_outside_interpreter(0..al.len());
+                            let esz = l.size.bytes() as usize;
+                            if meta <= 4096 {
+                                let items: Vec<Val> = (0..meta as usize).map(|i| self.decode_bytes(*el, bytes, i * esz, 0)).collect();
+                                return Val::ConstRef(Box::new(Val::Array(items)));
+                            }
+                        }
+                        return Val::Top;
+                    }
+                }
                 if let GlobalAlloc::Memory(a) = self.tcx.global_alloc(alloc_id) {
                     let inner = a.inner();
                     let n = (meta as usize).min(inner.len());
@@ -843,6 +882,46 @@ impl<'tcx> Interp<'tcx> {
                     return Val::Str(String::from_utf8_lossy(bytes).to_string());
                 }
                 Val::Top
+            }
+            ConstValue::Indirect { alloc_id, offset } if matches!(ty.kind(), ty::Ref(..)) => {
+                // a (possibly fat) pointer stored in memory: follow its provenance to the pointee
+                let ty::Ref(_, pointee, _) = ty.kind() else { return Val::Top };
+                let GlobalAlloc::Memory(a) = self.tcx.global_alloc(alloc_id) else { return Val::Top };
+                let al = a.inner();
+                let off = offset.bytes() as usize;
+                let bytes = al.inspect_with_uninit_and_ptr_outside_interpreter(0..al.len());
+                let Some(prov) = al.provenance().ptrs().iter().find(|(o, _)| o.bytes() as usize == off).map(|(_, p)| *p) else { return Val::Top };
+                if off + 8 > bytes.len() {
+                    return Val::Top;
+                }
+                let rd = |o: usize| -> u128 {
+                    let mut v = 0u128;
+                    for i in 0..8 {
+                        v |= (bytes[o + i] as u128) << (8 * i);
+                    }
+                    v
+                };
+                let toff = rd(off) as usize;
+                let GlobalAlloc::Memory(ta) = self.tcx.global_alloc(prov.alloc_id()) else { return Val::Top };
+                let tal = ta.inner();
+                let tbytes = tal.inspect_with_uninit_and_ptr_outside_interpreter(0..tal.len());
+                match pointee.kind() {
+                    ty::Slice(el) => {
+                        if off + 16 > bytes.len() {
+                            return Val::Top;
+                        }
+                        let n = rd(off + 8) as usize;
+                        let Ok(l) = self.tcx.layout_of(self.env.as_query_input(*el)) else { return Val::Top };
+                        let esz = l.size.bytes() as usize;
+                        if n > 4096 {
+                            return Val::Top;
+                        }
+                        let items: Vec<Val> = (0..n).map(|i| self.decode_bytes(*el, tbytes, toff + i * esz, 0)).collect();
+                        Val::ConstRef(Box::new(Val::Array(items)))
+                    }
+                    ty::Str | ty::Dynamic(..) => Val::Top,
+                    _ => Val::ConstRef(Box::new(self.decode_bytes(*pointee, tbytes, toff, 0))),
+                }
             }
             ConstValue::Indirect { alloc_id, offset } => {
                 if let GlobalAlloc::Memory(a) = self.tcx.global_alloc(alloc_id) {
@@ -1477,6 +1556,13 @@ impl<'tcx> Interp<'tcx> {
                             Val::Int { signed: s, bits: from_const((0u128.wrapping_sub(x)) & mask(w), w) }
                         }
                         None => Val::Int { signed: s, bits: top_bits(bits.len()) },
+                    },
+                    (UnOp::PtrMetadata, _) => match &v {
+                        Val::ConstRef(inner) => match &**inner {
+                            Val::Array(items) => Val::Int { signed: false, bits: from_const(items.len() as u128, 64) },
+                            _ => self.top_of(dest_ty, 0),
+                        },
+                        _ => self.top_of(dest_ty, 0),
                     },
                     _ => self.top_of(dest_ty, 0),
                 }
